@@ -16,8 +16,8 @@ pub const BUF: usize = 16;
 
 /// A snapshot of the backing buffer together with the window geometry.
 #[derive(Clone, Copy)]
-pub struct Win {
-    pub buf: [u8; BUF],
+pub struct Win<const B: usize = 16> {
+    pub buf: [u8; B],
     pub stride: usize,
     pub sc: usize,
     pub sr: usize,
@@ -25,7 +25,7 @@ pub struct Win {
     pub rows: usize,
 }
 
-impl Win {
+impl<const B: usize> Win<B> {
     /// Cell (c, r) of the window.
     #[inline]
     pub fn at(&self, c: usize, r: usize) -> u8 {
@@ -37,11 +37,11 @@ impl Win {
 pub trait Op {
     fn apply<G: TooDeeOpsMut<u8>>(&self, g: &mut G);
     /// Judge the effect inside the window (old vs new).
-    fn check(&self, old: &Win, new: &Win);
+    fn check<const B: usize>(&self, old: &Win<B>, new: &Win<B>);
 }
 
 /// Pointwise oracle helper: `new[(c,r)] == f(c,r)` at a symbolic probe inside the window.
-pub fn probe_eq<F: Fn(usize, usize) -> u8>(new: &Win, f: F) {
+pub fn probe_eq<const B: usize, F: Fn(usize, usize) -> u8>(new: &Win<B>, f: F) {
     if new.cols == 0 || new.rows == 0 {
         return;
     }
@@ -161,7 +161,7 @@ pub fn geometry(kind: u8, pc: usize, pr: usize, p: Pick) -> Geom {
 
 /// Apply `op` to the receiver of the given kind and judge it.
 /// `gm` must come from `geometry` (for kind 0 it is the whole array).
-pub fn run<O: Op>(kind: u8, pc: usize, pr: usize, gm: Geom, cells: [u8; BUF], op: &O, must_panic: bool) {
+pub fn run<const B: usize, O: Op>(kind: u8, pc: usize, pr: usize, gm: Geom, cells: [u8; B], op: &O, must_panic: bool) {
     let mut arr = cells;
     let (start, end, size) = (gm.start, gm.end, gm.size);
     let old = Win { buf: cells, stride: pc, sc: start.0, sr: start.1, cols: size.0, rows: size.1 };
